@@ -827,6 +827,13 @@ impl<'a> Gen<'a> {
     }
 
     fn small_num(&mut self) -> i64 {
+        if self.mode == Mode::Full {
+            return match self.r.below(8) {
+                0 => 0,
+                1 => -(self.r.range(1, 2_000_000)),
+                _ => self.r.range(0, 5_000_000),
+            };
+        }
         match self.r.below(10) {
             0 => 0,
             1 => -1,
@@ -908,11 +915,23 @@ impl<'a> Gen<'a> {
             4 | 5 => X::Add(Box::new(self.int(d - 1)), Box::new(self.int(d - 1))),
             6 | 7 => X::Sub(Box::new(self.int(d - 1)), Box::new(self.int(d - 1))),
             8 => X::Neg(Box::new(self.int(d - 1))),
-            9 => match self.r.below(3) {
-                0 => X::Call("tip_slot".into(), vec![]),
-                1 => X::Call("slot_to_time".into(), vec![self.int(d - 1)]),
-                _ => X::Call("time_to_slot".into(), vec![self.int(d - 1)]),
-            },
+            9 => {
+                // slots and timestamps are non-negative: literals or offsets of the tip
+                let arg = if self.mode == Mode::Full {
+                    if self.r.chance(1, 2) {
+                        X::Num(self.r.range(0, 2_000_000_000_000))
+                    } else {
+                        X::Add(Box::new(X::Call("tip_slot".into(), vec![])), Box::new(X::Num(self.r.range(0, 100_000))))
+                    }
+                } else {
+                    self.int(d - 1)
+                };
+                match self.r.below(3) {
+                    0 => X::Call("tip_slot".into(), vec![]),
+                    1 => X::Call("slot_to_time".into(), vec![arg]),
+                    _ => X::Call("time_to_slot".into(), vec![arg]),
+                }
+            }
             _ => {
                 if names.is_empty() {
                     X::Num(self.small_num())
@@ -935,7 +954,18 @@ impl<'a> Gen<'a> {
                     self.r.pick(&names).clone()
                 }
             }
-            4 => X::Concat(Box::new(self.bytes(d - 1)), Box::new(self.bytes(d - 1))),
+            4 => {
+                if self.mode == Mode::Full {
+                    // both operands of one kind
+                    if self.r.chance(1, 2) {
+                        X::Concat(Box::new(X::Hex(self.r.bytes(2))), Box::new(X::Hex(self.r.bytes(3))))
+                    } else {
+                        X::Concat(Box::new(X::Str("ab".into())), Box::new(X::Str("Cd".into())))
+                    }
+                } else {
+                    X::Concat(Box::new(self.bytes(d - 1)), Box::new(self.bytes(d - 1)))
+                }
+            }
             _ => {
                 if self.prog.policies.is_empty() {
                     X::Hex(vec![9])
@@ -964,7 +994,7 @@ impl<'a> Gen<'a> {
             2 if !self.prog.assets.is_empty() => X::Call(self.r.pick(&self.prog.assets.clone()).0.clone(), vec![self.int(d.min(1))]),
             3 if !names.is_empty() => self.r.pick(&names).clone(),
             4 => {
-                let pol = if self.prog.policies.is_empty() || self.r.chance(1, 2) {
+                let pol = if self.prog.policies.is_empty() || self.r.chance(if self.mode == Mode::Full { 5 } else { 1 }, if self.mode == Mode::Full { 6 } else { 2 }) {
                     X::Hex(policy_hash(3))
                 } else {
                     X::Id(self.r.pick(&self.prog.policies.clone()).0.clone())
@@ -1155,10 +1185,10 @@ impl<'a> Gen<'a> {
             let named = self.r.chance(1, 2);
             let optional = self.r.chance(1, 8);
             let mut o = Output { name: if named { Some(n.to_string()) } else { None }, optional, ..Default::default() };
-            if self.r.chance(19, 20) {
+            if self.mode == Mode::Full || self.r.chance(19, 20) {
                 o.to = Some(self.address());
             }
-            if self.r.chance(19, 20) {
+            if self.mode == Mode::Full || self.r.chance(19, 20) {
                 o.amount = Some(self.assets(3));
             }
             if !optional && self.r.chance(1, 2) {
@@ -1249,8 +1279,13 @@ impl<'a> Gen<'a> {
         if !self.prog.assets.is_empty() && self.r.chance(1, 2) {
             X::Call(self.r.pick(&self.prog.assets.clone()).0.clone(), vec![self.int(1)])
         } else {
-            let pol = if self.prog.policies.is_empty() { X::Hex(policy_hash(3)) } else { X::Id(self.r.pick(&self.prog.policies.clone()).0.clone()) };
-            X::AnyAsset(Box::new(pol), Box::new(self.bytes(0)), Box::new(self.int(1)))
+            let pol = if self.prog.policies.is_empty() || (self.mode == Mode::Full && self.r.chance(4, 5)) {
+                X::Hex(policy_hash(3))
+            } else {
+                X::Id(self.r.pick(&self.prog.policies.clone()).0.clone())
+            };
+            let amount = if self.mode == Mode::Full { X::Num(self.r.range(1, 1000)) } else { self.int(1) };
+            X::AnyAsset(Box::new(pol), Box::new(self.bytes(0)), Box::new(amount))
         }
     }
 
